@@ -792,6 +792,16 @@ class ProtoClassMetadata:
         return field_cls
 
 
+def _is_default(value: Any, default: Any) -> bool:
+    """
+    True if `value` is the proto3 default of its field. -0.0 is not: its bit pattern
+    is non-zero, so it is serialized like any other non-default value.
+    """
+    if isinstance(value, float) and value == 0 and math.copysign(1.0, value) < 0:
+        return False
+    return value == default
+
+
 def _equal_up_to_nan(a: Any, b: Any) -> bool:
     """Equality that treats nan as equal to nan, also inside repeated and map fields."""
     if isinstance(a, float) and isinstance(b, float):
@@ -1050,7 +1060,7 @@ class Message(ABC):
                 field_name=field_name, meta=meta
             )
 
-            if value == self._get_field_default(field_name) and not (
+            if _is_default(value, self._get_field_default(field_name)) and not (
                 selected_in_group or serialize_empty or include_default_value_for_oneof
             ):
                 # Default (zero) values are not serialized. Two exceptions are
@@ -1163,7 +1173,7 @@ class Message(ABC):
                 field_name=field_name, meta=meta
             )
 
-            if value == self._get_field_default(field_name) and not (
+            if _is_default(value, self._get_field_default(field_name)) and not (
                 selected_in_group or serialize_empty or include_default_value_for_oneof
             ):
                 # Default (zero) values are not serialized. Two exceptions are
@@ -1616,7 +1626,7 @@ class Message(ABC):
                 if value or include_default_values:
                     output[cased_name] = output_map
             elif (
-                value != self._get_field_default(field_name)
+                not _is_default(value, self._get_field_default(field_name))
                 or include_default_values
                 or self._include_default_value_for_oneof(
                     field_name=field_name, meta=meta
@@ -1911,7 +1921,7 @@ class Message(ABC):
                 if value or include_default_values:
                     output[cased_name] = output_map
             elif (
-                value != self._get_field_default(field_name)
+                not _is_default(value, self._get_field_default(field_name))
                 or include_default_values
                 or self._include_default_value_for_oneof(
                     field_name=field_name, meta=meta
